@@ -11,6 +11,8 @@ python3 tools/check.py "$prop" --tier "$tier" > "work/seeded_$(basename $dir).lo
 rc=$?
 git -C /repo checkout -- .
 python3 tools/gen_model.py > /dev/null
+# restore the evidence file from a run on the unchanged tree
+python3 tools/check.py "$prop" --tier quick > /dev/null 2>&1
 grep -E "^C[0-9]+:|^VIOLATION|^BROKEN|^KNOWN" "work/seeded_$(basename $dir).log" | cut -c1-300
 echo "exit=$rc"
 exit 0
